@@ -4,6 +4,8 @@ import Zc.Proofs.CacheRun
 import Zc.Proofs.IngestPost
 import Zc.Proofs.Respond
 import Zc.Proofs.Packetize
+import Zc.Proofs.SurviveCache
+import Zc.Props.C04
 /-! `DownOK` for the composed downstream `Zc.Survive.Comp.down`: each of the three component
 obligations is proved from the theorems of the component models, and what cannot be is a named
 hypothesis about the uninterpreted residue `Rest`:
@@ -30,11 +32,30 @@ the server name; it is an assumption about what the application registers. -/
 def RegSafe (reg : Registry) : Prop :=
   ∀ s ∈ reg.services, ∀ r ∈ RespSpec.own lower ettl s, RecSafe (wireOfRec r) 0
 
+/-- the text of a wire name whose labels can be written back (≤ 63 bytes each after re-encoding) and
+that is at most 253 characters long: what `C15_encodable` / `C02_names_short` say of every decoded name -/
+def NameFromWire (s : String) : Prop := ∃ n : WName, nameOK n = true ∧ nameLen n ≤ 253 ∧ s = textOfName n
+
+/-- every name of the record — owner, PTR alias, SRV target, NSEC next name — is such a text -/
+def RecNamesOK (r : Rec) : Prop :=
+  NameFromWire r.name ∧
+    match r.rdata with
+    | .ptr a => NameFromWire a
+    | .srv _ _ _ t => NameFromWire t
+    | .nsec n _ => NameFromWire n
+    | _ => True
+
+theorem recNamesOK_lifeFree : LifeFree RecNamesOK := fun _ _ _ h => h
+
 structure CInv (d : CState ρ) : Prop where
   /-- the indexed cache refines a duplicate-free flat store (C05's `CacheInv` in its inductive form) -/
   cache : ∃ s, Refines lower d.cache s ∧ Flat.WF lower s
   /-- C03's registry invariant: the type and server indexes are exactly the services' keys -/
   reg : IndexInv lower d.reg
+  /-- **every cached name can be written back** (the D8b clause): each record object in the cache —
+  in the by-name index and in the by-server index — carries only names that are texts of wire names with
+  encodable labels.  Established at ingestion from `C15_encodable`, never disturbed by the lifetime re-stamping. -/
+  names : CacheAll RecNamesOK d.cache
   /-- C03's memo invariant: every memoised record of a registered service equals a fresh build -/
   fresh : AllFresh lower d.reg
   safe : RegSafe lower ettl d.reg
@@ -80,6 +101,38 @@ theorem cache_ingest_ok {c : Cache} (h : ∃ s, Refines lower c s ∧ Flat.WF lo
   | ok co =>
     rw [hc] at hi
     exact ⟨co, rfl, so.cache, hi.1, hwf.ingest now recs so hso⟩
+
+/-- the records `msg.answers()` hands over carry only names that can be written back: the decoder's
+guarantee (`PktOK`: `encodable`, `namesShort`) seen through the text layer -/
+theorem recsOf_names {k : Pkt} (hk : PktOK k) : ∀ r ∈ recsOf k, RecNamesOK r := by
+  obtain ⟨_, henc, hshort, _, _⟩ := hk
+  simp only [encodable, List.all_eq_true] at henc
+  simp only [DecodeSpec.namesShort, List.all_eq_true, decide_eq_true_eq] at hshort
+  have hname : ∀ w ∈ k.p.records, ∀ n, (n = w.name ∨ n ∈ DecodeSpec.rdataNames w.rdata) → NameFromWire (textOfName n) := by
+    intro w hw n hn
+    have hmem : n ∈ DecodeSpec.namesOf k.p := by
+      simp only [DecodeSpec.namesOf, List.mem_append, List.mem_flatMap, List.mem_cons]
+      exact Or.inr ⟨w, hw, hn⟩
+    exact ⟨n, henc n hmem, hshort n hmem, rfl⟩
+  intro r hr
+  unfold recsOf at hr
+  obtain ⟨w, hw, hrw⟩ := List.mem_filterMap.mp hr
+  unfold recOfW at hrw
+  have h0 := hname w hw w.name (Or.inl rfl)
+  cases hrd : w.rdata with
+  | addr a => rw [hrd] at hrw; simp at hrw; subst hrw; exact ⟨h0, trivial⟩
+  | txt t => rw [hrd] at hrw; simp at hrw; subst hrw; exact ⟨h0, trivial⟩
+  | hinfo c o => rw [hrd] at hrw; simp at hrw; subst hrw; exact ⟨h0, trivial⟩
+  | other raw => rw [hrd] at hrw; simp at hrw
+  | ptr t =>
+    rw [hrd] at hrw; simp at hrw; subst hrw
+    exact ⟨h0, hname w hw t (Or.inr (by rw [hrd]; simp [DecodeSpec.rdataNames]))⟩
+  | srv a b c t =>
+    rw [hrd] at hrw; simp at hrw; subst hrw
+    exact ⟨h0, hname w hw t (Or.inr (by rw [hrd]; simp [DecodeSpec.rdataNames]))⟩
+  | nsec n ts =>
+    rw [hrd] at hrw; simp at hrw; subst hrw
+    exact ⟨h0, hname w hw n (Or.inr (by rw [hrd]; simp [DecodeSpec.rdataNames]))⟩
 
 /-- every record a service can be asked for by one question is one of its `own` records -/
 theorem candidates_sub_own (s : Svc) (q : Question) : ∀ a ∈ RespSpec.candidates lower ettl s q, a ∈ RespSpec.own lower ettl s := by
@@ -145,19 +198,20 @@ theorem respond_records_own {reg reg' : Registry} (hi : IndexInv lower reg) (hm 
 
 theorem comp_ingestOK (hL : ListenersOK R Iρ) :
     IngestOK (down lower possible ettl R) (CInv lower ettl Iρ) := by
-  intro d k hI _
+  intro d k hI hk
   obtain ⟨out, ho, hcache⟩ := cache_ingest_ok lower hI.cache k.now (recsOf k)
+  have hnames : CacheAll RecNamesOK out.cache := ingest_all recNamesOK_lifeFree hI.names k.now (recsOf_names hk) ho
   show ∃ d' o, ingest lower possible R d k = .ok (d', o) ∧ _
   unfold ingest
   rw [ho]
   dsimp only
   cases hc1 : out.call1 with
-  | none => exact ⟨_, _, rfl, ⟨hcache, hI.reg, hI.fresh, hI.safe, hI.browsers, hI.rest⟩⟩
+  | none => exact ⟨_, _, rfl, ⟨hcache, hI.reg, hnames, hI.fresh, hI.safe, hI.browsers, hI.rest⟩⟩
   | some call =>
     dsimp only
     obtain ⟨r1, o, hl, hr1⟩ := hL d.rest k.now call.1 call.2 out.cache out.notify hI.rest
     rw [hl]
-    refine ⟨_, _, rfl, ⟨hcache, hI.reg, hI.fresh, hI.safe, ?_, hr1⟩⟩
+    refine ⟨_, _, rfl, ⟨hcache, hI.reg, hnames, hI.fresh, hI.safe, ?_, hr1⟩⟩
     intro b hb
     simp only [browsersStep, List.map_map, List.mem_map] at hb
     obtain ⟨b0, _, rfl⟩ := hb
@@ -210,13 +264,13 @@ theorem comp_answerOK (hR : RouteOK R Iρ) :
   unfold answer
   rcases Zc.respond_ok lower ettl hI.reg (ks.map msgOf) with ⟨_, hr⟩ | ⟨_, hr⟩
   · rw [hr]
-    exact ⟨_, none, rfl, ⟨hI.cache, hI.reg, hI.fresh, hI.safe, hI.browsers, hI.rest⟩, by intro q hq; cases hq⟩
+    exact ⟨_, none, rfl, ⟨hI.cache, hI.reg, hI.names, hI.fresh, hI.safe, hI.browsers, hI.rest⟩, by intro q hq; cases hq⟩
   · rw [hr]
     dsimp only
     have hown := respond_records_own lower ettl hI.reg hI.fresh (ks.map msgOf) hr
     obtain ⟨r1, sel, hroute, hr1, hsel⟩ := hR d.rest d.cache ks u (answerMap lower ettl d.reg (ks.map msgOf)) hI.rest
     rw [hroute]
-    refine ⟨_, _, rfl, ⟨hI.cache, warmed_inv lower hI.reg _,
+    refine ⟨_, _, rfl, ⟨hI.cache, warmed_inv lower hI.reg _, hI.names,
       fun s hs => warmed_memo lower (ks.map msgOf) (lower s.name) (fun o ho _ => hI.fresh o ho) s hs rfl,
       regSafe_of_fields lower ettl (warmed_fields lower d.reg _) hI.safe, hI.browsers, hr1⟩, ?_⟩
     intro q hq
@@ -236,7 +290,7 @@ theorem comp_enqueueOK (hQ : QueueOK R Iρ) : EnqueueOK (down lower possible ett
   unfold enqueue
   cases d.pending with
   | none => exact hI
-  | some sel => exact ⟨hI.cache, hI.reg, hI.fresh, hI.safe, hI.browsers, hQ d.rest t sel hI.rest⟩
+  | some sel => exact ⟨hI.cache, hI.reg, hI.names, hI.fresh, hI.safe, hI.browsers, hQ d.rest t sel hI.rest⟩
 
 /-- **`DownOK` for the composition**, from the three residual assumptions -/
 theorem comp_downOK (hL : ListenersOK R Iρ) (hR : RouteOK R Iρ) (hQ : QueueOK R Iρ) :
@@ -246,7 +300,8 @@ theorem comp_downOK (hL : ListenersOK R Iρ) (hR : RouteOK R Iρ) (hQ : QueueOK 
 
 /-- the composite invariant holds initially: empty cache, no browsers, empty registry -/
 theorem CInv.init (r0 : ρ) (h : Iρ r0) : CInv lower ettl Iρ ⟨{}, [], [], {}, none, r0⟩ :=
-  ⟨⟨[], Refines.empty lower, List.Pairwise.nil⟩, IndexInv.empty lower, by intro s hs; simp at hs, by intro s hs; simp at hs,
+  ⟨⟨[], Refines.empty lower, List.Pairwise.nil⟩, IndexInv.empty lower,
+   ⟨by intro kb hkb; simp at hkb, by intro kb hkb; simp at hkb⟩, by intro s hs; simp at hs, by intro s hs; simp at hs,
    by intro b hb; simp at hb, h⟩
 
 end
